@@ -56,10 +56,10 @@ def find (s : Store) (p : Bytes) : List (Bytes × Bytes) := s.filter (fun e => i
 
 /-! ### constants (regenerated from the sources) -/
 
-def pU : Nat := Generated.container_nextEpochNodesPrefix.toNat
-def pN : Nat := Generated.container_nodesPrefix.toNat
-def pR : Nat := Generated.container_replicasNumberPrefix.toNat
-def pM : Nat := Generated.container_containersWithMetaPrefix.toNat
+def pU : Nat := (Generated.container_nextEpochNodesPrefix_bytes.headD 0)
+def pN : Nat := (Generated.container_nodesPrefix_bytes.headD 0)
+def pR : Nat := (Generated.container_replicasNumberPrefix_bytes.headD 0)
+def pM : Nat := (Generated.container_containersWithMetaPrefix_bytes.headD 0)
 def maxREPs : Int := Generated.container_maxNumOfREPs
 /-- `interop.Hash256Len` -/
 def cidLen : Nat := 32
